@@ -244,7 +244,9 @@ func (a *adapter) Data(data []byte, streamEnded bool) error {
 		default:
 			panic(fmt.Sprintf("unexpected state: %v", a.state))
 		}
-		if a.buffer.Len() == 0 {
+		// A zero-length message has nothing left to wait for: deliver it now rather than on the
+		// next DATA frame, which never comes if this frame ended the stream.
+		if a.buffer.Len() == 0 && !(a.state == readingMessageData && a.length == 0) {
 			return nil
 		}
 	}
